@@ -67,12 +67,13 @@ FIXED_MESSAGES = {
     "NotPython": "raised by code named after a template file", "Undecodable": "raised by code named after a binary file",
     "SolPlain": "brings a solution", "SolNoDesc": "brings a solution without description", "SolNoTitle": "brings a solution without title",
     "LongContext": "the last of 1500 failures", "CircularContext": "context chain is a circle",
+    "TypeError": "unsupported operand type(s) in the handler's own code", "TypeErrorOnce": "a TypeError of the handler's body, first call only",
 }
 FREE_MESSAGE = ("Foreign", "Library", "WithCode", "Chained", "NoSource", "CodeMethod", "CodeNone", "CodeString", "CodeFloat", "CodeBig")
 ALL_KINDS = ["Foreign", "Library", "KeyboardInterrupt", "WithCode", "Chained", "TagOpen", "TagClose", "TagUnbalanced", "TagCloseOpen",
              "MultiLine", "NonAscii", "Backslash", "NoSource", "StrFails", "LibraryTagged", "LibraryBackslash", "LibraryCloseOpen",
              "CodeMethod", "CodeNone", "CodeString", "CodeFloat", "CodeBig", "TagFile", "NotPython", "Undecodable",
-             "SolPlain", "SolNoDesc", "SolNoTitle", "LongContext", "CircularContext"]
+             "SolPlain", "SolNoDesc", "SolNoTitle", "LongContext", "CircularContext", "TypeError", "TypeErrorOnce"]
 SCOPES = ["top", "indent", "increment", "output"]
 
 
@@ -189,6 +190,8 @@ def raise_kind(kind, msg):
         err = SolutionError(msg)
         err.shape = {"SolPlain": "plain", "SolNoDesc": "nodesc", "SolNoTitle": "notitle"}[kind]
         raise err
+    if kind in ("TypeError", "TypeErrorOnce"):
+        raise TypeError(msg)
     if kind == "LongContext":  # a retry loop: every failure raised while the one before is on record
         err = RuntimeError(msg)
         err.__context__ = _context_chain(1500)
@@ -265,8 +268,19 @@ class Recorder(object):
 
     def _finish(self):
         if self.outcome["t"] == "raise":
+            if self.outcome["k"] == "TypeErrorOnce":  # fails the first time it is invoked in a run, succeeds if asked again
+                if len(self.calls) > 1:
+                    return None
+                raise TypeError(self.msg)
             raise_kind(self.outcome["k"], self.msg)
         return value_of(self.outcome["v"])
+
+
+class _Named(object):
+    """stands for the command in a callback (CallbackHandler does not pass it on)"""
+
+    def __init__(self, full_name):
+        self.full_name = full_name
 
 
 class MethodOnly(object):
@@ -318,8 +332,24 @@ def build_app(slot, formatter=None, session=False):
     handler = Recorder(slot)
     route = env.get("hroute", "object")
 
-    def attach(c):
-        if route == "factory":
+    def attach(c, full_name=None):
+        if route.startswith("callback"):
+            # clikit.handler.callback_handler.CallbackHandler around a plain function of 2 / 3 (third one optional) / any number
+            # of parameters; the command is not handed to a callback, its name is bound here
+            from clikit.handler.callback_handler import CallbackHandler
+
+            stub = _Named(full_name)
+            if route == "callback2":
+                def cb(args, io):
+                    return handler.handle(args, io, stub)
+            elif route == "callback3":
+                def cb(args, io, command=None):
+                    return handler.handle(args, io, stub)
+            else:
+                def cb(*rest):
+                    return handler.handle(rest[0], rest[1], stub)
+            c.set_handler(CallbackHandler(cb))
+        elif route == "factory":
             c.set_handler(lambda: handler)
         elif route == "method":
             c.set_handler(MethodOnly(handler))
@@ -330,17 +360,17 @@ def build_app(slot, formatter=None, session=False):
     with cfg.command("alpha") as c:
         c.add_argument("a", Argument.REQUIRED)
         c.add_option("flag", None, Option.NO_VALUE)
-        attach(c)
+        attach(c, "alpha")
     with cfg.command("beta") as c:
         c.add_option("num", None, Option.REQUIRED_VALUE)
-        attach(c)
+        attach(c, "beta")
         with c.sub_command("gamma") as sub:
             sub.add_argument("c", Argument.REQUIRED)
-            attach(sub)
+            attach(sub, "beta gamma")
     if env["app"] == "plain":
         with cfg.command("delta") as c:  # what an empty command line runs
             c.default()
-            attach(c)
+            attach(c, "delta")
     if session or env["pre"] != "none":
         def pre(event, name, dispatcher):
             if slot["env"]["pre"] == "raise":
@@ -500,7 +530,7 @@ def random_env(rng):
         outcome = {"t": "raise", "v": "", "k": rng.choice(kinds)}
     env = {"app": app, "catch": rng.random() < 0.85, "verb": rng.choice([0, 0, 1, 2, 3]), "line": line,
            "pre": rng.choice(["none", "none", "pass", "raise"]), "listeners": listeners, "outcome": outcome,
-           "scope": rng.choice(SCOPES), "hroute": rng.choice(["object", "object", "factory", "method"]),
+           "scope": rng.choice(SCOPES), "hroute": rng.choice(["object", "object", "factory", "method", "callback2", "callback3", "callbackv"]),
            "exit": rng.random() < 0.15}
     msgs = {src: rng.choice(MESSAGES) for src in ("pre", "l1", "l2", "l3", "handler") if rng.random() < 0.8}
     return {"env": env, "msgs": msgs}
@@ -566,7 +596,7 @@ def _run(ctx):
         "Report, Return) for every environment of the product {plain, default application} x catching on/off x 4 verbosities x "
         "7 command lines (two commands, a sub-command, options, a missing argument, an unknown command) x pre-resolve listener "
         "{none, passes, raises} x up to 1/2 pre-handle listeners {pass, handle with 0 / '3' / 300, raise Foreign / tagged "
-        "library error / KeyboardInterrupt} x {at the top of the handler, inside io.indent / io.increment_indent / io.output.indent scopes} x handler configured as object / factory / other method name x terminate_after_run off / on (status via sys.exit) x 27 handler results (incl. Decimal, bytes, 2**70, objects with __int__ / __bool__) + 30 exception kinds (incl. code named after a non-Python / binary file, exceptions bringing crashtest solutions without description / title, __context__ chains of 1500 links and circular ones) (6 of them carrying a `code` that is an int / a method / None / a string / a float / 70000), checking Contained, ZeroIff, Clamped, "
+        "library error / KeyboardInterrupt} x {at the top of the handler, inside io.indent / io.increment_indent / io.output.indent scopes} x handler configured as object / factory / other method name / CallbackHandler around a callback of 2, 3 or any number of parameters x terminate_after_run off / on (status via sys.exit) x 27 handler results (incl. Decimal, bytes, 2**70, objects with __int__ / __bool__) + 32 exception kinds (a TypeError of the handler's own body among them, also one that would succeed if the handler were invoked a second time) (incl. code named after a non-Python / binary file, exceptions bringing crashtest solutions without description / title, __context__ chains of 1500 links and circular ones) (6 of them carrying a `code` that is an int / a method / None / a string / a float / 70000), checking Contained, ZeroIff, Clamped, "
         "Reported, Interrupt, CallsOK on every final state and termination under fairness; three sub-products (all outcomes x "
         "verbosities; all listener pairs; all lines x pre-resolve) are emitted and replayed on real applications (status, "
         "escaping exception, handler invocations with command name / arguments / options, whether anything was printed); "
@@ -596,9 +626,9 @@ def _run(ctx):
     traces, cases = [], []
     seen = set()
     bad = 0
-    for k, cfg in enumerate(["MC_AppRun_%s_%s.cfg" % (x, ctx.tier) for x in ("outcomes", "listeners", "lines")]):
-        r = ctx.model(SPEC, "MC_AppRun", cfg, name="emitted sub-product " + cfg, workers=8, coverage=(k == 1))
-        if k == 1:
+    for k, cfg in enumerate(["MC_AppRun_%s_%s.cfg" % (x, ctx.tier) for x in ("outcomes", "routes", "listeners", "lines")]):
+        r = ctx.model(SPEC, "MC_AppRun", cfg, name="emitted sub-product " + cfg, workers=8, coverage=(k == 2))
+        if k == 2:
             idle = [a for a in ACTIONS if r.coverage.get(a, (0, 0))[1] == 0]
             if idle:
                 raise T.MachineryError("actions never taken in the model run: %s" % idle)
@@ -623,7 +653,7 @@ def _run(ctx):
             if len(seen) == 700:
                 ctx.sample({"tlc_environment": beh["env"], "observed": {k2: ev["o"][k2] for k2 in ("status", "escaped", "calls")}})
         r.lines = []
-    if len(seen) < 2000:
+    if len(seen) < 1500:
         raise T.MachineryError("too few environments emitted (%d)" % len(seen))
     ctx.extra["tlc_environments_replayed"] = len(seen)
     ctx.extra["tlc_environments_not_reproduced"] = bad
